@@ -509,6 +509,9 @@ def catalogue_c10(seed, tier, rng):
             c.add("terrain", op, [R("elev", dt, lay, scalar_res=True)])
     for dt, lay in some(per):
         c.add("terrain", "hillshade", [R("elev", dt, lay)], {"azimuth": 225, "angle_altitude": 25})
+    for dt, lay in some(2):
+        # a Dataset that carries the terrain along: that variable must be a copy too
+        c.add("terrain", "summarize_terrain", [R("elev", dt, lay, name="dem")], {}, identity="own")
     for dt, lay in some(per):
         c.add("focal", "focal_mean", [R("elev", dt, lay)], {"passes": 1})
     for dt, lay in some(per):
